@@ -8,7 +8,9 @@ package main
 // state (pos, depth, inObj, atKey): the cursor, the current nesting depth, whether the level-1 container is an
 // object, and whether the cursor is in key position of that object. Token() enforces the JSON grammar, so:
 // kinds are 1..8; at depth 0 no closing delimiter is delivered; in key position of the level-1 object the token
-// is a string or '}'; in value position it is not a closing delimiter.
+// is a string or '}'; in value position it is not a closing delimiter. More() before the last token says whether the
+// next token is a closing delimiter; after the last token it is left unspecified (it peeks at the next byte).
+// The model was compared with the real decoder on generated documents by /verif/axiomtest (an empirical check).
 // Kinds: 1 '{'  2 '}'  3 '['  4 ']'  5 string  6 number  7 bool  8 null.
 
 import (
@@ -44,13 +46,28 @@ func (x *Exec) tokText(v StrVal, k *Term) StrVal {
 	l := o.UF("json.textlen", IntSort, v.Arr, v.Off, v.Len, k)
 	return StrVal{Arr: o.UF("json.text", o.ByteArr(), v.Arr, v.Off, v.Len, k), Off: o.Int(0), Len: l}
 }
+// tokIsKey: token k is a member key of the top-level object (determined by the document's structure; the Token
+// schema states it for the token it delivers from the ghost position).
+func (x *Exec) tokIsKey(v StrVal, k *Term) *Term {
+	return x.o.UF("json.l1key", BoolSort, v.Arr, v.Off, v.Len, k)
+}
+// tokIsClose: token k is the '}' that closes the top-level object.
+func (x *Exec) tokIsClose(v StrVal, k *Term) *Term {
+	return x.o.UF("json.l1close", BoolSort, v.Arr, v.Off, v.Len, k)
+}
+
+// tokNKeys: the number of member keys of the top-level object among tokens [0,k) (a function of the document;
+// the Token schema states its step for the token it delivers).
+func (x *Exec) tokNKeys(v StrVal, k *Term) *Term {
+	return x.o.UF("json.nkeys", IntSort, v.Arr, v.Off, v.Len, k)
+}
 func (x *Exec) tokBool(v StrVal, k *Term) *Term {
 	return x.o.UF("json.bool", BoolSort, v.Arr, v.Off, v.Len, k)
 }
 func (x *Exec) nTok(v StrVal) *Term {
 	o := x.o
 	n := o.UF("json.ntok", IntSort, v.Arr, v.Off, v.Len)
-	x.assume(o.Le(o.Int(0), n))
+	x.assume(o.And(o.Le(o.Int(0), n), o.Le(n, v.Len))) // every token takes at least one byte
 	return n
 }
 func (x *Exec) jsonGarbage(v StrVal) *Term {
@@ -94,8 +111,10 @@ func (x *Exec) decoderOf(st *State, v Val) (*Object, DecVal) {
 				depth := o.Var(d.Sym+".depth", IntSort)
 				x.assume(o.And(o.Le(o.Int(0), pos), o.Le(o.Int(0), depth)))
 				l := o.Var(d.Sym+".doc.len", IntSort)
-				x.assume(o.Le(o.Int(0), l))
-				obj.Init = DecVal{View: StrVal{Arr: o.Var(d.Sym+".doc.arr", o.ByteArr()), Off: o.Int(0), Len: l}, Pos: pos, Depth: depth,
+				x.assume(o.And(o.Le(o.Int(0), l), o.Le(l, o.Int(1<<62))))
+				view := StrVal{Arr: o.Var(d.Sym+".doc.arr", o.ByteArr()), Off: o.Int(0), Len: l}
+				x.assume(o.Le(pos, x.nTok(view))) // the cursor never passes the last token
+				obj.Init = DecVal{View: view, Pos: pos, Depth: depth,
 					InObj: o.Var(d.Sym+".inobj", BoolSort), AtKey: o.Var(d.Sym+".atkey", BoolSort)}
 				x.symDecs[d.Sym] = obj
 			}
@@ -108,6 +127,24 @@ func (x *Exec) decoderOf(st *State, v Val) (*Object, DecVal) {
 
 func in2(o *Ops, k *Term, a, b int64) *Term { return o.Or(o.Eq(k, o.Int(a)), o.Eq(k, o.Int(b))) }
 
+// jsonGrammar: what the JSON grammar says about the token at the cursor, given the ghost position.
+func (x *Exec) jsonGrammar(st *State, d DecVal) {
+	o := x.o
+	n := x.nTok(d.View)
+	valid := o.Lt(d.Pos, n)
+	k := x.tokKind(d.View, d.Pos)
+	isClose := in2(o, k, 2, 4)
+	x.assume(o.Implies(o.And(st.Guard, valid), o.And(
+		o.Le(o.Int(1), k), o.Le(k, o.Int(8)),
+		o.Implies(o.Eq(d.Depth, o.Int(0)), o.Not(isClose)),
+		o.Implies(o.And(o.Eq(d.Depth, o.Int(1)), d.InObj, d.AtKey), in2(o, k, 5, 2)),
+		o.Implies(o.And(o.Eq(d.Depth, o.Int(1)), d.InObj, o.Not(d.AtKey)), o.Not(isClose)),
+		o.Eq(x.tokIsKey(d.View, d.Pos), o.And(o.Eq(d.Depth, o.Int(1)), d.InObj, d.AtKey, o.Eq(k, o.Int(5)))),
+		o.Eq(x.tokIsClose(d.View, d.Pos), o.And(o.Eq(d.Depth, o.Int(1)), d.InObj, d.AtKey, o.Eq(k, o.Int(2)))),
+		o.Eq(x.tokNKeys(d.View, o.Add(d.Pos, o.Int(1))), o.Add(x.tokNKeys(d.View, d.Pos), o.Ite(x.tokIsKey(d.View, d.Pos), o.Int(1), o.Int(0)))),
+		o.Le(o.Int(0), x.tokText(d.View, d.Pos).Len))))
+}
+
 func (x *Exec) jsonToken(st *State, v Val) Val {
 	o := x.o
 	x.needIntJSON()
@@ -117,13 +154,7 @@ func (x *Exec) jsonToken(st *State, v Val) Val {
 	k := x.tokKind(d.View, d.Pos)
 	isOpen := in2(o, k, 1, 3)
 	isClose := in2(o, k, 2, 4)
-	// grammar facts of the token delivered
-	x.assume(o.Implies(o.And(st.Guard, valid), o.And(
-		o.Le(o.Int(1), k), o.Le(k, o.Int(8)),
-		o.Implies(o.Eq(d.Depth, o.Int(0)), o.Not(isClose)),
-		o.Implies(o.And(o.Eq(d.Depth, o.Int(1)), d.InObj, d.AtKey), in2(o, k, 5, 2)),
-		o.Implies(o.And(o.Eq(d.Depth, o.Int(1)), d.InObj, o.Not(d.AtKey)), o.Not(isClose)),
-		o.Le(o.Int(0), x.tokText(d.View, d.Pos).Len))))
+	x.jsonGrammar(st, d)
 	// the token value
 	tDelim, tNum := x.jsonType("Delim"), x.jsonType("Number")
 	idDelim, idNum, idStr, idBool := x.typeID(tDelim), x.typeID(tNum), x.typeID(typString), x.typeID(typBool)
@@ -136,7 +167,7 @@ func (x *Exec) jsonToken(st *State, v Val) Val {
 	seq := x.callSeq
 	x.callSeq++
 	ev := ErrVal{Nil: valid, Is: map[string]*Term{}, As: map[string]*Term{}, Data: map[string]*Term{
-		"inputLen": o.Int(-1), "isEOF": o.And(o.Not(valid), o.Not(x.jsonGarbage(d.View)))}}
+		"inputLen": o.Int(-1), "isEOF": o.And(o.Not(valid), o.Not(x.jsonGarbage(d.View))), "origin": o.Int(1)}}
 	_ = seq
 	// ghost state after the call
 	atDepth := func(n int64) *Term { return o.Eq(d.Depth, o.Int(n)) }
@@ -155,9 +186,12 @@ func (x *Exec) jsonMore(st *State, v Val) Val {
 	o := x.o
 	x.needIntJSON()
 	_, d := x.decoderOf(st, v)
+	x.jsonGrammar(st, d)
 	n := x.nTok(d.View)
 	k := x.tokKind(d.View, d.Pos)
-	return o.Or(o.And(o.Lt(d.Pos, n), o.Not(in2(o, k, 2, 4))), o.And(o.Eq(d.Pos, n), x.jsonGarbage(d.View)))
+	// Before the last token: whether the next token is a closing delimiter. After it, More() looks at the next
+	// non-space byte whatever it is (a function of the document that the token stream does not determine).
+	return o.Or(o.And(o.Lt(d.Pos, n), o.Not(in2(o, k, 2, 4))), o.And(o.Eq(d.Pos, n), o.UF("json.moreAtEnd", BoolSort, d.View.Arr, d.View.Off, d.View.Len)))
 }
 
 func init() {
